@@ -1463,7 +1463,10 @@ var (
 	// the zero date "0000-00-00" is left out by construction: known finding
 	// zero-date-accepted (witness in findings/)
 	dateShapes     = []string{"2024-02-29", "1999-12-31", "2000-01-01", "0001-01-01", "9999-12-31", "2100-02-28", "1600-02-29", "2023-06-30", "2022-01-01", "1970-01-01", "0999-10-10"}
-	dateTimeShapes = []string{"2024-02-29T23:59:59", "1999-12-31T00:00:00", "0001-01-01T00:00:00", "9999-12-31T23:59:59", "0000-00-00T00:00:00", "2023-06-30T12:30:45", "2016-12-31T23:59:60", "2023-06-30T12:30:45.5", "2023-06-30T12:30:45.123456789"}
+	dateTimeShapes = []string{"2024-02-29T23:59:59", "1999-12-31T00:00:00", "0001-01-01T00:00:00", "9999-12-31T23:59:59", "0000-00-00T00:00:00", "2023-06-30T12:30:45", "2016-12-31T23:59:60", "2023-06-30T12:30:45.5", "2023-06-30T12:30:45.123456789",
+		// RFC 3339 forms with a zone, with and without a fraction, other letter cases, a space for the T
+		"2023-06-30T12:30:45Z", "2023-06-30T12:30:45+02:00", "2023-06-30T12:30:45.5Z", "2023-06-30T12:30:45.250+02:00", "2023-06-30T12:30:45.000000001-06:00",
+		"2023-06-30t12:30:45z", "2023-06-30 12:30:45", "2023-06-30T12:30", "2023-06-30T24:00:00", "2023-06-30"}
 	amountShapes   = []string{"0", "1", "-1", "0.00", "-0.00", "10.5", "1234567.89", "0.000001", "123456789012345.12", "-99999.9999", "1.2345678901234567", "007"}
 	percentShapes  = []string{"0%", "21%", "-5.5%", "100%", "100.000%", "0.0%", "7.25%", "1000%", "0.001%"}
 	l10nCodeShapes = []string{"A", "AB", "01", "CAT", "M", "X9", "ABCDEFGHIJKLMNOP", "a", "a-b", "A B"}
